@@ -238,11 +238,12 @@ func c10c(c *Ctx) {
 	} else {
 		n, bad := 0, ""
 		for _, p := range livePaths(rs) {
-			if !strings.Contains(cleanConds(p.Conds), "nonempty(extensions)") {
+			if !strings.Contains(cleanConds(p.Conds), "nonempty(") {
 				continue
 			}
 			for _, t := range p.Toks {
-				if t.Kind == "pfx" && t.N == 2 && t.sub != nil && t.sub.Name() == "extensions" {
+				// the extensions field: the u16-prefixed substring that is parsed into typed sub-fields
+				if t.Kind == "pfx" && t.N == 2 && t.sub != nil && len(stripEnds(t.Kids)) > 0 && stripEnds(t.Kids)[0].Kind == "u" {
 					n++
 					if ok, reason := wireEqual(w, t.Kids); !ok {
 						bad = reason
@@ -647,8 +648,12 @@ func c10g(c *Ctx) {
 				if !ok || be2.Op != token.EQL || !a.Val {
 					continue
 				}
-				if _, p, ok := fieldPath(ti, be2.X); ok && len(p) == 1 && p[0] == "L" {
-					if v, ok := constInt(ti, be2.Y); ok {
+				lhs, rhs := ast.Unparen(be2.X), ast.Unparen(be2.Y)
+				if _, isConst := constInt(ti, lhs); isConst {
+					lhs, rhs = rhs, lhs
+				}
+				if _, p, ok := fieldPath(ti, lhs); ok && len(p) == 1 && p[0] == "L" {
+					if v, ok := constInt(ti, rhs); ok {
 						if pt, _ := g.ReachableFromEntry(Cut{Edges: map[Edge]bool{e: true}}, atSite(r)); pt == nil {
 							level = fmt.Sprint(v)
 						}
